@@ -4,6 +4,7 @@
    dropping only entries older than its retention. *)
 From Coq Require Import String.
 From KM Require Import Base.Bytes Model.Events Proofs.Events.
+From KM Require Import Model.EventsChurn Proofs.EventsChurn Model.EventsReaders Proofs.EventsReaders.
 
 (* ---------------------------------------------------------------- issuing paths *)
 
@@ -284,3 +285,72 @@ Example c20_ex_save_fault :
   startup_load (run_save (save_prog f (gen_tag 2)) (save_cleanup f) (CrashAt 6) fs) f = LGen (gen_tag 2) /\
   run_save (save_prog f (gen_tag 2)) (save_cleanup f) (CrashAt 3) fs = [(tmp_name f, FWhole (gen_tag 2)); (f, FWhole (gen_tag 1))].
 Proof. vm_compute. repeat split; reflexivity. Qed.
+
+(* ---------------------------------------------------------------- subscribers that come and go *)
+Open Scope nat_scope.
+
+(* The subscriber table keyed as in the code (by the connection's own channel), from an empty
+   notifier, after ANY history of connects, disconnects, publishes and reads — in every order, any
+   number of them: a connection that is connected and has a free slot is handed the next published
+   event (so: every certificate issued) as the newest element of its queue, exactly once; a
+   connection that has left is handed nothing. *)
+Theorem c20_issue_delivered_churn : forall ops i c e,
+  let st := krun kalloc_chan ops k_init in
+  nth_error (k_conns st) i = Some c ->
+  (kc_on c = true -> length (buf (kc_ch c)) < cap (kc_ch c) ->
+     exists c', nth_error (k_conns (kstep kalloc_chan st (KPub e))) i = Some c' /\ kc_on c' = true /\
+                buf (kc_ch c') = buf (kc_ch c) ++ [e] /\ got (kc_ch c') = got (kc_ch c)) /\
+  (kc_on c = false -> nth_error (k_conns (kstep kalloc_chan st (KPub e))) i = Some c).
+Proof. exact churn_delivered. Qed.
+Print Assumptions c20_issue_delivered_churn.
+
+(* a table keyed by "number of entries + 1" does not have this property: connect, connect, the
+   first leaves, connect — the second connection is connected, its queue is empty, and no
+   publication reaches it any more *)
+Theorem c20_count_keyed_table_refuted :
+  let st := krun kalloc_count ex_churn k_init in
+  exists c, nth_error (k_conns st) 1 = Some c /\ kc_on c = true /\ buf (kc_ch c) = [] /\
+    forall e, nth_error (k_conns (kstep kalloc_count st (KPub e))) 1 = Some c.
+Proof. exact count_keyed_loses. Qed.
+Print Assumptions c20_count_keyed_table_refuted.
+
+(* ---------------------------------------------------------------- readers of the history *)
+
+(* The event loop hands every reader its cached read-out itself.  For a reader that leaves what it
+   was handed as it found it (and a life in which every earlier reader did), serving the request
+   changes nothing: the history, the file, the pending save, and what the next reader or the save
+   timer will be handed are what they were — the current history. *)
+Theorem c20_read_pure : forall now file ops f, readers_pure ops -> reader_pure f ->
+  let st := lrun2 ops (l_start now file) in
+  let st' := lstep2 st (LRead f) in
+  l_map st' = l_map st /\ l_file st' = l_file st /\ l_armed st' = l_armed st /\
+  snd (l_get st') = snd (l_get st) /\ snd (l_get st') = l_map st.
+Proof. exact read_pure. Qed.
+Print Assumptions c20_read_pure.
+
+(* ... hence whatever such readers came by, and at whatever points of the life: history, file and
+   pending save are those of the same life with every reader taken out, and whenever no save is
+   pending the file holds the current history (or nothing changed since the start) *)
+Theorem c20_history_reader_independent : forall now file ops, readers_pure ops ->
+  let st := lrun2 ops (l_start now file) in
+  let st0 := lrun (drop_reads ops) (l_start now file) in
+  (l_map st = l_map st0 /\ l_file st = l_file st0 /\ l_armed st = l_armed st0) /\
+  (l_armed st = false -> l_file st = Some (l_map st) \/ l_map st = l_map (l_start now file)).
+Proof. exact readers_transparent. Qed.
+Print Assumptions c20_history_reader_independent.
+
+(* purity is needed: a reader that filters the slices it was handed in place (two events, the
+   reader, the save) makes the loop save something that is not the history, although the same life
+   without the reader saves exactly it *)
+Theorem c20_mutating_reader_refuted :
+  let st := lrun2 ex_mutating_history (l_start 0 None) in
+  l_armed st = false /\ l_map st <> l_map (l_start 0 None) /\ l_file st <> Some (l_map st) /\
+  l_file (lrun (drop_reads ex_mutating_history) (l_start 0 None)) = Some (l_map st).
+Proof. exact mutating_reader_corrupts. Qed.
+Print Assumptions c20_mutating_reader_refuted.
+
+Example c20_ex_churn :
+  map (fun kc => delivered (kc_ch kc))
+      (k_conns (krun kalloc_chan [KConn 16; KConn 16; KPub (EWebLogin [1%N]); KDisc 0; KConn 16; KPub (EWebLogin [2%N])] k_init)) =
+  [[EWebLogin [1%N]]; [EWebLogin [1%N]; EWebLogin [2%N]]; [EWebLogin [2%N]]].
+Proof. vm_compute. reflexivity. Qed.
